@@ -22,9 +22,15 @@ def run():
         return 2
     # the specification against ground truth that does not come from inkayaku
     wd = common.workdir("setup")
-    info = common.run_tlc(os.path.join(common.SPEC, "SelfTest.tla"), os.path.join(common.SPEC, "SelfTest.cfg"), wd, timeout=1800)
-    if info["rc"] != 0:
-        print(info["out"][-3000:])
-        return 2
+    def one(mod):
+        swd = os.path.join(wd, mod)
+        os.makedirs(swd, exist_ok=True)
+        return mod, common.run_tlc(os.path.join(common.SPEC, mod + ".tla"), os.path.join(common.SPEC, mod + ".cfg"), swd, timeout=3000)
+
+    for mod, info in common.pmap(one, ["SelfTest", "SelfTest2"], 2):
+        if info["rc"] != 0 or "Error" in info["out"]:
+            print(mod + " failed")
+            print(info["out"][-3000:])
+            return 2
     print("setup ok")
     return 0
